@@ -18,6 +18,9 @@ def gen_reconnect(seed, opts=None):
     P = _pick(rng, [(2, 100), (2, 500), (1, 50)])
     L = P * rng.randint(3, 6)
     n_conn = _pick(rng, [(3, 1), (2, 2), (1, 3), (1, 4)])
+    sweep_base = bool((opts or {}).get('sweep'))
+    if sweep_base:
+        n_conn = 1  # one reconnect, requested at every loop iteration in turn
     plan = {'exec': 'reconnect', 'profile': (opts or {}).get('name', 'reconnect'), 'seed': seed, 'loop': {'eps': _pick(rng, [(3, 0.0), (1, 1e-6)])},
             'client': {'keepalive_ms': P, 'lifetime_ms': L, 'fragment': _pick(rng, [(3, None), (1, 64)])},
             'link': {'c2s': {'latency': 0.001}, 's2c': {'latency': _pick(rng, [(2, 0.001), (1, 0.003)])}},
@@ -59,6 +62,8 @@ def gen_reconnect(seed, opts=None):
             ias.append(ia)
             iid += 1
         cause = _pick(rng, [(3, 'server_eof'), (2, 'reset'), (2, 'keepalive_timeout'), (3, 'explicit')])
+        if sweep_base:
+            cause = 'explicit'
         t_end = round(t + 0.03 + rng.uniform(0, 0.02), 4)
         if big and rng.random() < 0.6:
             # the server asks too (fragmented requests travelling towards the client when the connection ends)
@@ -106,7 +111,7 @@ def gen_reconnect(seed, opts=None):
         late = [(3, 0.45)] if (opts or {}).get('lease') else []  # a lease that arrives after the first request of the connection
         plan['lease'] = {'delay': _pick(rng, [(1, 0.0), (1, 0.005), (1, 0.05)] + late), 'n': _pick(rng, [(1, 3), (3, 1000)]),
                          'ttl_us': 600_000_000}
-        if any(e['cause'] == 'cut' for e in events):
+        if sweep_base or any(e['cause'] == 'cut' for e in events):
             # a cut may end a connection earlier than planned, its remaining requests then run on the next one
             plan['lease']['n'] = 1000
     return plan
@@ -276,7 +281,10 @@ def _run(world, plan):
                 world.rec('act', ep='client', what='reconnect', via='script', conn=k)
                 loop.create_task(world.endpoints['client'].reconnect())
 
-        loop.call_at(ev['at'], lambda end=end, ev=ev: loop.call_after_hops(ev.get('hops', 0), end))
+        if ev.get('at_iter') is not None:
+            world.at_iter(ev['at_iter'], end)  # sweep: the moment is a loop iteration, not a time
+        else:
+            loop.call_at(ev['at'], lambda end=end, ev=ev: loop.call_after_hops(ev.get('hops', 0), end))
         if ev.get('reconnect_at') is not None and ev['cause'] != 'explicit':
             def req(ev=ev):
                 if ev['conn'] not in requested:
@@ -285,9 +293,6 @@ def _run(world, plan):
                     loop.create_task(world.endpoints['client'].reconnect())
 
             loop.call_at(ev['reconnect_at'], req)
-        if ev.get('at_iter') is not None:
-            pass
-
     for ia in plan['interactions']:
         def starter(ia=ia):
             if ia.get('by') == 'server':
@@ -414,6 +419,9 @@ def oracle_c17(world):
                       'handler %d times / altered (%s)' % (len(got), cause), act['seq'], **facts)
                 continue
             if ia.get('probe') and ia.get('conn') == new:
+                act = next((e for e in h if e['k'] == 'act' and e.get('what') == 'request' and e.get('iid') == ia['id']), None)
+                if act is None or conn_ev is None or act['seq'] < conn_ev['seq']:
+                    continue  # issued before the new connection was up: not "a request issued afterwards"
                 done = [e for e in h if e['k'] == 'fut' and e.get('iid') == ia['id'] and e.get('role') == 'requester' and e['seq'] < mark]
                 if not done or done[0]['state'] != 'result':
                     # the probe is only meaningful if the next ending event had not started yet
